@@ -210,10 +210,69 @@ def execute(case: dict) -> dict:
     return o
 
 
+def py_case(layout: int, dirs: list, angles: list) -> dict:
+    """The case MC_Pointing would emit for these (cos, sin, den) angle triples and integer unit directions: a literal
+    transcription of FxPointing.Rot / Rotated / Double in Python integers (no 32-bit bound), cross-checked against every
+    case TLC emitted.  Used for pointings whose exact (cos, sin) need more than 32 bits: colatitudes within a milliradian
+    of the poles."""
+    from math import gcd
+
+    rotated, double_pa = [], []
+    for phi, theta, pa in angles:
+        c1, s1, d1 = phi
+        c2, s2, d2 = theta
+        c3, s3, d3 = pa
+        rows = [[-s1 * s3 * d2 + c1 * c2 * c3, -s1 * c3 * d2 - c1 * c2 * s3, c1 * s2 * d3],
+                [c1 * s3 * d2 + s1 * c2 * c3, c1 * c3 * d2 - s1 * c2 * s3, s1 * s2 * d3],
+                [-s2 * c3 * d1, s2 * s3 * d1, c2 * d1 * d3]]
+        den = d1 * d2 * d3
+        per_det = []
+        for det in dirs:
+            per_dir = []
+            for v in det:
+                w = [sum(rows[i][k] * v[k] for k in range(3)) for i in range(3)] + [den * v[3]]
+                g = 0
+                for x in w:
+                    g = gcd(g, abs(x))
+                g = g or 1
+                per_dir.append([x // g for x in w])
+            per_det.append(per_dir)
+        rotated.append(per_det)
+        dp = [c3 * c3 - s3 * s3, 2 * c3 * s3, d3 * d3]
+        g = gcd(gcd(abs(dp[0]), abs(dp[1])), dp[2]) or 1
+        double_pa.append([x // g for x in dp])
+    return {'layout': layout, 'samples': [0] * len(angles), 'dirs': dirs, 'angles': angles, 'double_pa': double_pa,
+            'rotated': rotated, 'python_transcription': True}
+
+
+def near_pole_cases() -> list[dict]:
+    """Boresight and off-axis detectors pointed within a milliradian of either pole (not at the pole itself, where four
+    pixels meet): (cos, sin) = (+-(n^2 - 1), 2n, n^2 + 1) / (n^2 + 1) for n = 2000, 2500, 5000."""
+    out = []
+    k = 0
+    for n in (2000, 2500, 5000):
+        for sign in (-1, 1):
+            theta = [sign * (n * n - 1), 2 * n, n * n + 1]
+            for phi, pa in (([3, 4, 5], [1, 0, 1]), ([-5, -12, 13], [4, -3, 5]), ([8, 15, 17], [0, 1, 1])):
+                for layout, dirs in ((101, [[[0, 0, 1, 1]]]), (102, [[[0, 0, 1, 1]], [[1, 2, 2, 3]]])):
+                    c = py_case(layout, dirs, [[phi, theta, pa]])
+                    c['samples'] = [1000 + k]
+                    k += 1
+                    out.append(c)
+    return out
+
+
 def run(tier: str, seed: int) -> int:
     t0 = time.time()
     verd = fx.Verdicts(PROP)
     gen = generate(tier)
+    # the Python transcription reproduces every case TLC emitted (rotated directions and doubled position angles)
+    for c in gen.cases:
+        mine = py_case(c['layout'], c['dirs'], c['angles'])
+        norm = lambda v: [x * (1 if v[3] > 0 else -1) for x in v]
+        same = all(norm(a) == norm(b) for ra, rb in zip(mine['rotated'], c['rotated']) for da, db in zip(ra, rb) for a, b in zip(da, db))
+        if not same or [list(x) for x in mine['double_pa']] != [list(x) for x in c['double_pa']]:
+            raise fx.MachineryError(f"Python transcription of FxPointing disagrees with TLC on layout {c['layout']} samples {c['samples']}")
     rng = random.Random(seed)
     jobs = []
     kinds = ['I', 'QU', 'IQU', 'IQUV']
@@ -236,6 +295,11 @@ def run(tier: str, seed: int) -> int:
         else:
             combos = rng.sample(combos, 8 if len(c['samples']) <= 2 else 2)
         for s, n in combos:
+            j = dict(c, stokes=s, nside=n)
+            j['id'] = fx.case_id({'l': c['layout'], 's': c['samples'], 'k': s, 'n': n})
+            jobs.append(j)
+    for c in near_pole_cases():
+        for s, n in rng.sample([(s, n) for s in kinds for n in nsides], 2):
             j = dict(c, stokes=s, nside=n)
             j['id'] = fx.case_id({'l': c['layout'], 's': c['samples'], 'k': s, 'n': n})
             jobs.append(j)
